@@ -33,6 +33,7 @@ Next ==
   \/ \E h \in {1, 2} : ChildExit(h, 3)
   \/ \E h \in {1, 2} : ChildOut(h, 1)
   \/ \E h \in {1, 2} : ChildClose(h, 1)
+  \/ ChildCloseX(1)     \* the exit event is "the exit handle hung up": reported although the child lives on; a wait then lasts until it ends
   \/ Interrupt
 
 Spec == Init /\ [][Next]_vars
